@@ -93,7 +93,7 @@ func c20Scenario(p c20P, b Bounds) *Scenario {
 			failNext := map[int]bool{} // connection index (arrival order at newService) whose Assigner fails
 			body := func() {
 				acc := &memAccepter{}
-				ctx, cancel := context.WithCancel(context.Background())
+				ctx, cancel := cancelCauseCtx()
 				nsvc := 0
 				tok := 0
 				newService := func() server.Service {
@@ -103,6 +103,14 @@ func c20Scenario(p c20P, b Bounds) *Scenario {
 					hd := func(ctx context.Context, req *jrpc2.Request) (any, error) {
 						tok++
 						vs.Event("h_enter", req.Method(), fmt.Sprint(id))
+						if req.Method() == "push" {
+							// a handler (of a notification) that calls back to the client with a context of its
+							// own: only an answer or the server stopping can end that Callback
+							_, err := jrpc2.ServerFromContext(ctx).Callback(context.Background(), "ask", nil)
+							vs.Yield("h_exit")
+							vs.Note("h_exit", req.Method(), fmt.Sprint(id), errStr(err))
+							return nil, nil
+						}
 						gates.Wait(req.Method())
 						vs.Yield("h_exit")
 						vs.Note("h_exit", req.Method(), fmt.Sprint(id), ctxErrStr(ctx))
@@ -126,6 +134,19 @@ func c20Scenario(p c20P, b Bounds) *Scenario {
 							// a client that stays connected and silent: only the server side ends this connection
 							_, ok := peer.Recv()
 							vs.Note("client-got", fmt.Sprint(k), "", fmt.Sprint(ok))
+							peer.Close()
+							return
+						}
+						if name == "connpush" || name == "connpushgo" {
+							// the client's notification makes the handler call back; the client never answers
+							if !peer.Send([]byte(`{"jsonrpc":"2.0","method":"push"}`)) {
+								return
+							}
+							rec, ok := peer.Recv()
+							vs.Note("client-got", fmt.Sprint(k), string(rec), fmt.Sprint(ok))
+							if name == "connpush" && ok {
+								peer.Recv() // stays connected until the server side lets go
+							}
 							peer.Close()
 							return
 						}
@@ -156,7 +177,7 @@ func c20Scenario(p c20P, b Bounds) *Scenario {
 				}
 				for _, it := range p.Items {
 					switch it {
-					case "conn1", "conn2", "conn3", "connidle", "connerr":
+					case "conn1", "conn2", "conn3", "connidle", "connerr", "connpush", "connpushgo":
 						connect(it, false)
 					case "connfail":
 						connect(it, true)
@@ -184,7 +205,7 @@ func c20Scenario(p c20P, b Bounds) *Scenario {
 						}
 					}
 				})
-				err := server.Loop(ctx, acc, newService, &server.LoopOptions{ServerOptions: &jrpc2.ServerOptions{Concurrency: 2}})
+				err := server.Loop(ctx, acc, newService, &server.LoopOptions{ServerOptions: &jrpc2.ServerOptions{Concurrency: 2, AllowPush: true}})
 				vs.Yield("ret")
 				vs.Note("ret", "Loop", errStr(err))
 				j.Wait()
@@ -342,7 +363,7 @@ func c20Net(b Bounds) *Scenario {
 		New: func() *Instance {
 			body := func() {
 				lst := &fakeListener{}
-				ctx, cancel := context.WithCancel(context.Background())
+				ctx, cancel := cancelCauseCtx()
 				var j Join
 				j.Go("cancel", func() { vs.Event("env", "cancel"); cancel() })
 				err := server.Loop(ctx, server.NetAccepter(lst, channel.Line), server.Static(anyAssigner{func(context.Context, *jrpc2.Request) (any, error) { return 1, nil }}), nil)
@@ -427,6 +448,13 @@ func c20Scenarios(tier string) []*Scenario {
 			}
 			out = append(out, c20Scenario(c20P{Items: o}, b))
 		}
+	}
+	for _, o := range [][]string{{"connpush"}, {"connpushgo"}, {"connpush", "cancel"}, {"cancel", "connpush"}, {"conn1", "connpush"}, {"connpushgo", "conn1"}, {"connpush", "fail-other"}} {
+		b := Bounds{1, 1, 0}
+		if !q {
+			b = Bounds{2, 2, 0}
+		}
+		out = append(out, c20Scenario(c20P{Items: o}, b))
 	}
 	if q {
 		out = append(out, c20Scenario(c20P{Items: []string{"connerr", "cancel"}}, Bounds{1, 1, 0}), c20Scenario(c20P{Items: []string{"conn1", "connerr"}}, Bounds{1, 1, 0}))
